@@ -33,7 +33,11 @@
 #include <fcppt/random/distribution/parameters/uniform_real.hpp>
 #include <fcppt/random/generator/minstd_rand.hpp>
 #include <fcppt/random/generator/mt19937.hpp>
+#include <fcppt/random/generator/seed_from_chrono.hpp>
 #include <fcppt/random/wrapper/make_uniform_container.hpp>
+#include <fcppt/random/wrapper/make_uniform_container_advanced.hpp>
+#include <fcppt/random/distribution/parameters/make_uniform_enum_advanced.hpp>
+#include <fcppt/random/distribution/parameters/make_uniform_indices_advanced.hpp>
 #include <fcppt/random/wrapper/uniform_container.hpp>
 #include <fcppt/type_iso/enum.hpp>
 #include <fcppt/type_iso/strong_typedef.hpp>
@@ -168,6 +172,16 @@ void emit(vj::J const &pre, std::function<void(vj::J &)> const &call)
   ++records;
 }
 
+// a user-supplied distribution policy for the *_advanced factories (uniform_int_wrapper.hpp shows the shape)
+struct own_int_policy
+{
+  template <typename Type>
+  struct apply
+  {
+    using type = std::uniform_int_distribution<Type>;
+  };
+};
+
 // ------------------------------------------------------------------------------ result kinds
 FCPPT_MAKE_STRONG_TYPEDEF(short, strong_short);
 FCPPT_MAKE_STRONG_TYPEDEF(int, strong_int);
@@ -280,13 +294,16 @@ void drive_draw(std::string const &rname, base_of<R> const a, base_of<R> const b
   using dist = fcppt::random::distribution::basic<params>;
   bool const wide = is_wide(a, b);
   vj::J pre;
-  pre.kv("f", "draw").kv("wide", wide).kv("kind", kind_of<R>::get()).kv("R", rname).kv("via", via_variate ? "variate" : "basic");
+  // every other non-variate run constructs the distribution through the factory make_basic
+  bool const via_make_basic = !via_variate && script.size() % 2 == 1;
+  pre.kv("f", "draw").kv("wide", wide).kv("kind", kind_of<R>::get()).kv("R", rname).kv("via", via_variate ? "variate" : via_make_basic ? "make_basic" : "basic");
   pre.raw("a", val_json(num_of(a), wide)).raw("b", val_json(num_of(b), wide)).kv("script", script);
   emit(pre, [&](vj::J &r) {
     Run w;
     {
       scripted gen(script);
-      dist d{params(typename params::min(decorate<R>(a)), typename params::max(decorate<R>(b)))};
+      params const pr(typename params::min(decorate<R>(a)), typename params::max(decorate<R>(b)));
+      dist d{via_make_basic ? fcppt::random::distribution::make_basic(pr) : dist{pr}};
       fcppt::random::variate<scripted, dist> var(fcppt::make_ref(gen), d);
       for (int i = 0; i < max_draws; ++i)
       {
@@ -461,6 +478,9 @@ void enum_family(std::string const &ename, int const size, int const maxlen)
       params const p{fcppt::random::distribution::parameters::make_uniform_enum<E>()};
       auto const wp = p.convert_from();
       r.raw("a", num_json(num_of(wp.a()))).raw("b", num_json(num_of(wp.b())));
+      // the same through the advanced factory with a user-supplied distribution policy
+      auto const ap = fcppt::random::distribution::parameters::make_uniform_enum_advanced<own_int_policy, E>().convert_from();
+      r.raw("aa", num_json(num_of(ap.a()))).raw("ab", num_json(num_of(ap.b())));
     });
   }
   Agg agg;
@@ -529,7 +549,11 @@ void enum_family(std::string const &ename, int const size, int const maxlen)
 
 // ------------------------------------------------------------------------------ containers
 // elements 100+i, so that an element identifies its position
-template <typename C>
+// Advanced: the *_advanced factories with own_int_policy instead of the default ones.
+// Writes: the container is not const; 900+k is assigned through the k-th returned reference
+// (uniform_container_decl.hpp: result_type = fcppt::container::to_reference_type<Container>) and
+// the container is logged afterwards ("after").
+template <typename C, bool Advanced = false, bool Writes = false>
 void drive_container(std::string const &cname, int const size, std::vector<int> const &script)
 {
   C cont;
@@ -540,7 +564,10 @@ void drive_container(std::string const &cname, int const size, std::vector<int> 
   emit(pre, [&](vj::J &r) {
     {
       // the index factory on its own
-      auto const ip = fcppt::random::distribution::parameters::make_uniform_indices(cont);
+      auto const ip = [&] {
+        if constexpr (Advanced) return fcppt::random::distribution::parameters::make_uniform_indices_advanced<own_int_policy>(cont);
+        else return fcppt::random::distribution::parameters::make_uniform_indices(cont);
+      }();
       r.kv("isome", ip.has_value());
       if (ip.has_value())
       {
@@ -548,7 +575,11 @@ void drive_container(std::string const &cname, int const size, std::vector<int> 
         r.raw("ia", val_json(num_of(wp.a()), false)).raw("ib", val_json(num_of(wp.b()), false));
       }
     }
-    auto dist = fcppt::random::wrapper::make_uniform_container(fcppt::make_cref(cont));
+    auto dist = [&] {
+      if constexpr (Writes) return fcppt::random::wrapper::make_uniform_container(fcppt::make_ref(cont));
+      else if constexpr (Advanced) return fcppt::random::wrapper::make_uniform_container_advanced<own_int_policy>(fcppt::make_cref(cont));
+      else return fcppt::random::wrapper::make_uniform_container(fcppt::make_cref(cont));
+    }();
     r.kv("some", dist.has_value());
     Run w;
     std::vector<int> widx;
@@ -559,8 +590,9 @@ void drive_container(std::string const &cname, int const size, std::vector<int> 
       {
         try
         {
-          int const &x = dist.get_unsafe()(gen);
+          auto &x = dist.get_unsafe()(gen);
           w.v.push_back(num_of(x));
+          if constexpr (Writes) x = 900 + i;
           // which element was returned (by identity, not by value)
           long pos = -1;
           long k = 0;
@@ -600,6 +632,7 @@ void drive_container(std::string const &cname, int const size, std::vector<int> 
     }
     put_run(r, "wv", "wc", "wex", w, false);
     r.kv("widx", widx);
+    if constexpr (Writes) r.kv("after", std::vector<int>(cont.begin(), cont.end()));
     put_run(r, "sv", "sc", "sex", s, false);
   });
 }
@@ -623,6 +656,45 @@ void drive_raw(std::string const &ename, ull const seed, int const n)
     r.raw("wv", nums_json(w)).raw("sv", nums_json(s));
     r.raw("wmin", num_json(num_of(FE::min()))).raw("wmax", num_json(num_of(FE::max())));
     r.raw("smin", num_json(num_of(SE::min()))).raw("smax", num_json(num_of(SE::max())));
+  });
+}
+
+// basic_pseudo(SeedSeq &): "Constructs the generator using a seed sequence"
+template <typename FE, typename SE>
+void drive_raw_seq(std::string const &ename, std::vector<unsigned> const &seq, int const n)
+{
+  vj::J pre;
+  pre.kv("f", "raw").kv("eng", ename + "_seed_seq").kv("seq", seq).kv("n", n);
+  emit(pre, [&](vj::J &r) {
+    std::seed_seq q1(seq.begin(), seq.end());
+    std::seed_seq q2(seq.begin(), seq.end());
+    FE fe(q1);
+    SE se(q2);
+    std::vector<Num> w;
+    std::vector<Num> s;
+    for (int i = 0; i < n; ++i)
+    {
+      w.push_back(num_of(fe()));
+      s.push_back(num_of(se()));
+    }
+    r.raw("wv", nums_json(w)).raw("sv", nums_json(s));
+    r.raw("wmin", num_json(num_of(FE::min()))).raw("wmax", num_json(num_of(FE::max())));
+    r.raw("smin", num_json(num_of(SE::min()))).raw("smax", num_json(num_of(SE::max())));
+  });
+}
+
+// seed_from_chrono<Seed>(): "Creates a seed of type Seed from a chrono clock" - only that a
+// generator can be constructed from it and yields values within [min(), max()] is observable
+template <typename FE>
+void drive_chrono(std::string const &ename)
+{
+  vj::J pre;
+  pre.kv("f", "chrono").kv("eng", ename);
+  emit(pre, [&](vj::J &r) {
+    FE fe(fcppt::random::generator::seed_from_chrono<typename FE::seed>());
+    std::vector<Num> w;
+    for (int i = 0; i < 4; ++i) w.push_back(num_of(fe()));
+    r.raw("wv", nums_json(w)).raw("wmin", num_json(num_of(FE::min()))).raw("wmax", num_json(num_of(FE::max())));
   });
 }
 
@@ -783,10 +855,11 @@ enum op_code
   op_vcopy,      // continue with a copy of the variate
   op_vmove,      // continue with a moved variate
   op_copy,       // copy-construct the distribution, copy-assign it over another one and back
+  op_inout,      // write the distribution with <<, read it into another one with >> and continue with that one
   op_count
 };
 char const *const op_names[] = {"draw",       "reset",     "param_get", "param_set", "draw_param", "minmax", "eq",   "out",
-                                "draw_other", "wrap_ctor", "wrap_make", "vdraw",     "vcopy",      "vmove",  "copy"};
+                                "draw_other", "wrap_ctor", "wrap_make", "vdraw",     "vcopy",      "vmove",  "copy", "inout"};
 
 constexpr int fresh_draws = 4;
 
@@ -959,6 +1032,28 @@ void drive_session(
         sdist sa(Fam::smake(q1, q2));
         sa = sc;
         sd = sa;
+        break;
+      }
+      case op_inout:
+      {
+#if defined(C20_ISTREAM_API)
+        // basic_decl.hpp: "Outputs the underlying distribution of dist to stream" / "Inputs into the
+        // underlying distribution of dist from stream"
+        std::ostringstream ow;
+        ow << d;
+        std::istringstream iw(ow.str());
+        dist a{Fam::make(q1, q2)};
+        bool const okw = static_cast<bool>(iw >> a);
+        d = a;
+        std::ostringstream os;
+        os << sd;
+        std::istringstream is(os.str());
+        sdist sa(Fam::smake(q1, q2));
+        bool const oks = static_cast<bool>(is >> sa);
+        sd = sa;
+        w = std::string("[") + (okw ? "1" : "0") + "]";
+        s = std::string("[") + (oks ? "1" : "0") + "]";
+#endif
         break;
       }
       case op_reset:
@@ -1160,6 +1255,18 @@ std::vector<std::vector<int>> session_patterns(vj::Rng &r, int const nrandom)
   ps.push_back({op_minmax, op_param_get, op_eq, op_out, op_draw, op_eq, op_out, op_draw_param, op_draw, op_eq, op_out, op_param_set, op_param_get,
                 op_minmax, op_draw, op_out, op_reset, op_eq, op_out, op_draw, op_draw, op_eq, op_out, op_draw});
   ps.push_back({op_reset, op_reset, op_draw, op_reset, op_draw, op_draw, op_draw, op_reset, op_draw, op_draw});
+#if defined(C20_ISTREAM_API)
+  // k draws, the distribution written and read back (hidden state included), further draws
+  for (int k = 0; k <= 3; ++k)
+  {
+    std::vector<int> a(static_cast<std::size_t>(k), op_draw);
+    a.push_back(op_inout);
+    a.push_back(op_param_get);
+    for (int i = 0; i < 4; ++i) a.push_back(op_draw);
+    a.push_back(op_eq);
+    ps.push_back(a);
+  }
+#endif
   for (int j = 0; j < nrandom; ++j)
   {
     std::vector<int> a;
@@ -1278,6 +1385,8 @@ bool container_named(std::string const &cname, int const size, std::vector<int> 
 {
   if (cname == "vector") { drive_container<std::vector<int>>(cname, size, script); return true; }
   if (cname == "deque") { drive_container<std::deque<int>>(cname, size, script); return true; }
+  if (cname == "vector_advanced") { drive_container<std::vector<int>, true>(cname, size, script); return true; }
+  if (cname == "vector_writes") { drive_container<std::vector<int>, false, true>(cname, size, script); return true; }
   return false;
 }
 
@@ -1364,6 +1473,8 @@ void record(std::uint64_t const seed, bool const thorough)
     for_all_scripts(3, [&](std::vector<int> const &s) {
       container_named("vector", size, s);
       if (s.size() <= 2) container_named("deque", size, s);
+      if (s.size() <= 2) container_named("vector_advanced", size, s);
+      if (s.size() <= 2 || thorough) container_named("vector_writes", size, s);
     });
   // ---- the provided engines with sampled seeds, draw by draw against the std:: pair
   std::size_t const nseeds = thorough ? 3000 : 300;
@@ -1372,6 +1483,18 @@ void record(std::uint64_t const seed, bool const thorough)
     ull const s = i < 8 ? (i == 0 ? 1ULL : i == 1 ? 2147483646ULL : i == 2 ? 4294967295ULL : i) : (rng.next() & 0xFFFFFFFFULL);
     ull const s_minstd = (s % 2147483647ULL) == 0 ? 1ULL : s;
     drive_raw<f_minstd, std::minstd_rand>("minstd_rand", s_minstd, 8);
+    if (i % 4 == 1)
+    {
+      std::vector<unsigned> seq;
+      for (std::size_t j = 0; j < 1 + i % 5; ++j) seq.push_back(static_cast<unsigned>(rng.next()));
+      drive_raw_seq<f_minstd, std::minstd_rand>("minstd_rand", seq, 6);
+      drive_raw_seq<f_mt, std::mt19937>("mt19937", seq, 6);
+    }
+    if (i == 0)
+    {
+      drive_chrono<f_minstd>("minstd_rand");
+      drive_chrono<f_mt>("mt19937");
+    }
     drive_raw<f_mt, std::mt19937>("mt19937", s, 8);
     long long const a = rng.range(-8, 8);
     long long const b = rng.range(a, 8);
@@ -1438,6 +1561,20 @@ bool replay_one(vj::V const &e)
   if (f == "enum_params")
     return with_enum(e.str("E"), [&]<typename E>(E *, int const size) { enum_family<E>(e.str("E"), size, 1); });
   if (f == "container") return container_named(e.str("C"), static_cast<int>(e.at("elems").a.size()), script());
+  if (f == "chrono")
+  {
+    if (e.str("eng") == "minstd_rand") drive_chrono<f_minstd>("minstd_rand");
+    else drive_chrono<f_mt>("mt19937");
+    return true;
+  }
+  if (f == "raw" && e.has("seq"))
+  {
+    std::vector<unsigned> seq;
+    for (long long x : e.nums("seq")) seq.push_back(static_cast<unsigned>(x));
+    if (e.str("eng") == "minstd_rand_seed_seq") drive_raw_seq<f_minstd, std::minstd_rand>("minstd_rand", seq, static_cast<int>(e.num("n")));
+    else drive_raw_seq<f_mt, std::mt19937>("mt19937", seq, static_cast<int>(e.num("n")));
+    return true;
+  }
   if (f == "raw")
   {
     ull const s = num_of_json(e.at("seed")).mag;
